@@ -222,6 +222,29 @@ def check_tx(ctx, case):
         return
     if not ok:
         ctx.disc('tx.fields', 'parsed fields differ at %s' % where, case)
+        return
+    # the same transaction read from a stream in which it is preceded and followed by other data (transactions read
+    # one after the other, the transaction list of a block): the reader takes exactly the bytes of the transaction
+    from io import BytesIO
+    for entry, prefix, trail in (('parse_bytesio', b'\xaa\xbb\xcc', b'\x05\x06'), ('parse', b'', raw),
+                                 ('parse', b'\x00', b'')):
+        if True:
+            stream = BytesIO(prefix + raw + trail)
+            stream.seek(len(prefix))
+            what = 'Transaction.%s(stream at offset %d, %d bytes follow)' % (entry, len(prefix), len(trail))
+            try:
+                t2 = Transaction.parse_bytesio(stream, strict=strict) if entry == 'parse_bytesio' else \
+                    Transaction.parse(stream, strict=strict)
+                got = (t2.txid, t2.raw(), stream.tell())
+            except Exception as e:
+                ctx.disc('tx.stream.raises:' + entry, '%s raised %r' % (what, e), case)
+                return
+            if got != (want_txid, raw, len(prefix) + len(raw)):
+                ctx.disc('tx.stream:' + entry, '%s: txid %s (want %s), raw() %s the input bytes, stream position %d (want '
+                         '%d)' % (what, got[0], want_txid, 'equals' if got[1] == raw else 'differs from', got[2],
+                                  len(prefix) + len(raw)), case)
+                return
+    ctx.klass('tx.stream_reads')
 
 
 def check_block(ctx, case):
